@@ -41,6 +41,11 @@ def shard(shard_no, nshards, seed, tier, extra):
             # the same exhaustive enumeration starting from with_capacity(0 / 1 / 2 / 1000)
             reqs.append(("vm-exh-cap", {"op": "ds", "target": "vmap", "mode": "exhaustive", "universe": 4,
                                         "len": p["vm_len"], "capacity": [0, 1, 2, 1000][shard_no - 1]}))
+        if shard_no in (6, 7):
+            # the payload monoids (HashSet, Option<..>) against their tables and laws, and a forest carrying an Option
+            # payload against a naive model
+            reqs.append(("combine", {"op": "ds", "target": "combine", "mode": "laws", "universe": 5, "len": 30,
+                                     "count": 400, "seed": seed ^ (shard_no * 13 + 5)}))
         if shard_no == 5:
             # sparse keys: long gaps between occupied indices
             reqs.append(("vm-rand-sparse", {"op": "ds", "target": "vmap", "mode": "random", "universe": 3000, "len": 30,
@@ -67,7 +72,7 @@ def shard(shard_no, nshards, seed, tier, extra):
                        cap=4)
             for v in r["violations"]:
                 res.violation(v["signature"], v["witness"]["what"],
-                              {"workload": name, "profile": profile, "history": v["witness"]["history"], "request": req},
+                              {"workload": name, "profile": profile, "history": v["witness"].get("history"), "request": req},
                               count=v["count"])
         d.stop()
     return res.to_dict()
